@@ -140,7 +140,7 @@ def pick_faces(rng, cls, a, n):
     lab = drive.AXIS_LABELS[cls][a]
     if cls == "SphericalGrid3D" and lab == "theta":
         pool = [Fr(v) for v in (0, 1, 2, 3, 4)]
-        n = min(n, 3)
+        n = min(n, 2)          # every 4-face subset has a cell centre at 1/2 or 7/2
         while True:
             seq = sorted(rng.sample(pool, n + 1))
             if _sph_theta_ok(seq):
@@ -179,9 +179,9 @@ def uniform_faces(rng, cls, a, n):
 
 
 def gen_config(rng, cls, nmax=3, closed=False, allow_periodic=True, kinds=None, uniform_periodic=True,
-               uniform=False, nmin=1, nlim=None, faces_override=None, force_periodic=None):
+               uniform=False, nmin=1, nlim=None, faces_override=None, force_periodic=None, nmax3=None):
     d = drive.dim(cls)
-    cap = nmax if d < 3 else min(nmax, 2 if not uniform else 3)
+    cap = nmax if d < 3 else (nmax3 or min(nmax, 2 if not uniform else 3))
     if uniform:
         faces = [uniform_faces(rng, cls, a, rng.randint(min(nmin, cap), cap)) for a in range(d)]
     else:
@@ -377,6 +377,30 @@ def systematic_configs(seed=0, classes=None, variants=(True, False)):
     return out
 
 
+def large_configs(seed=0, closed=False, **kw):
+    """deterministic family: one larger non-uniform grid per class (5 cells in 1D, 4 x 3 in 2D, 4 x 2 x 2 in 3D;
+    SphericalGrid3D 3 x 2 x 4 within its restricted pools) - inputs on which an index that happens to be right
+    for the first two or three cells, or next to a boundary, is wrong somewhere"""
+    import random as _r
+    F = lambda *xs: [Fr(x) for x in xs]
+    lin5, rad5 = F(0, 1, 3, 4, 6, 7), F(1, 2, 4, 5, 7, 8)
+    lin4, rad4 = F(0, 1, 3, 4, 5), F(1, 2, 4, 5, 6)
+    table = {
+        "Grid1D": [lin5], "CylindricalGrid1D": [rad5], "SphericalGrid1D": [rad5],
+        "Grid2D": [lin4, F(0, 2, 3, 4)], "CylindricalGrid2D": [rad4, F(0, 2, 3, 4)],
+        "PolarGrid2D": [rad4, [Fr(1, 2), Fr(1), Fr(2), Fr(3)]],
+        "Grid3D": [lin4, F(0, 1, 3), F(0, 2, 3)], "CylindricalGrid3D": [rad4, [Fr(1, 2), Fr(1), Fr(2)], F(0, 2, 3)],
+        "SphericalGrid3D": [F(0, 1, 2, 4), F(1, 2, 3), F(0, 1, 2, 3, 4)],
+    }
+    out = []
+    for cls in drive.CLASSES:
+        rng = _r.Random(hash((seed, cls, "large", str(closed))) & 0xffffffff)
+        cfg = gen_config(rng, cls, closed=closed, allow_periodic=False, faces_override=table[cls], **kw)
+        cfg["systematic"] = "large"
+        out.append(cfg)
+    return out
+
+
 def periodic_systematic_configs(closed=False, seed=0):
     """deterministic family: for every grid class and every axis that can be periodic, that axis periodic
     (two equal cells) and every OTHER axis with two cells of different sizes - the end-cell ratios of the
@@ -411,10 +435,10 @@ def periodic_systematic_configs(closed=False, seed=0):
     return out
 
 
-def gen_means_config(rng, cls, nmax=3, positive=True, zeros=False):
+def gen_means_config(rng, cls, nmax=3, positive=True, zeros=False, nmax3=None):
     """cell sizes in {1, 2} (integer widths) and, for positive data, sixth powers {1, 64, 729}
     so that every weighted geometric mean is rational"""
-    cfg = gen_config(rng, cls, nmax=nmax, allow_periodic=False)
+    cfg = gen_config(rng, cls, nmax=nmax, allow_periodic=False, nmax3=nmax3)
     d = drive.dim(cls)
     faces = []
     for a in range(d):
